@@ -109,7 +109,50 @@ def gen_cases(ctx, n):
             mass = r.choice([0.5109989461, 105.6583745])
             en = r.choice([logu(r, -3, 4), 0.0, mass * logu(r, -6, 0)])
             cases.append((k, [en, mass], nz(gen_u(r, 90))))
+    # Marsaglia-Tsang squeeze gap (theorem C15_gamma_squeeze_sound): first-iteration points (z, u) that fail the
+    # exact logarithmic test by a clear margin, with u in the gap between squeeze and exact bound.  The code as it
+    # is rejects them; a weaker squeeze constant accepts them, which `squeeze_oracle` turns into a concrete input.
+    for j in range(10 if ctx.tier == "quick" else 200):
+        al = r.choice([1.0, 1.0, 1.25, 2.0, 5.0])
+        z = r.choice([-1, -1, 1]) * r.uniform(1.2, 2.3)
+        g = mt_first_iteration(al, z)
+        if g is None:
+            continue
+        sq, ex = g
+        if sq <= 0:
+            continue
+        u3 = max(math.exp(ex), sq) * (1 + r.choice([1e-6, 1e-4, 1e-3]))
+        if not (u3 < 1):
+            continue
+        u1 = 0.25 if z > 0 else 0.75          # sin(2 pi u1) = +-1
+        u2 = math.exp(-0.5 * z * z)           # r = |z|
+        cases.append(("gamma", [al, 1.0], [u1, u2, u3] + nz(gen_u(r, 60, extremes=False))))
     return cases
+
+
+def mt_first_iteration(alpha, z):
+    """(squeeze bound, exact bound) of the Marsaglia-Tsang test at deviate z, None if v <= 0 (alpha >= 1)"""
+    d = alpha - 1.0 / 3
+    c = 1 / math.sqrt(9 * d)
+    v = 1 + c * z
+    if v <= 0:
+        return None
+    v3 = v ** 3
+    return 1 - 0.0331 * z ** 4, 0.5 * z * z + d * (1 - v3 + math.log(v3))
+
+
+def squeeze_oracle(k, p, u, impl):
+    """squeeze soundness on the implementation: a point accepted at the first iteration (3 draws, alpha >= 1) must
+    satisfy the exact test  ln u <= z^2/2 + d (1 - v^3 + ln v^3)  -- the distribution law of the sampler rests on it"""
+    if k != "gamma" or impl is None or p[0] < 1 or impl[1] != 3 or len(u) < 3 or not (0 < u[1] <= 1 and u[2] > 0):
+        return None
+    z = math.sqrt(-2 * math.log(u[1])) * math.sin(2 * math.pi * u[0])
+    g = mt_first_iteration(p[0], z)
+    if g is None:
+        return None
+    if math.log(u[2]) > g[1] + 1e-7:
+        return {"alpha": p[0], "z": z, "u": u[2], "ln_u": math.log(u[2]), "exact_bound": g[1], "squeeze_bound_as_documented": g[0]}
+    return None
 
 
 def model_expr(k, p, u, clamp):
@@ -773,6 +816,96 @@ def run_stats(ctx, exe):
     ctx.coverage["supporting_statistical_test (a TEST, not a proof; thorough tier)"] = report
 
 
+PRE_CANON = ("From Coq Require Import ZArith List.\nFrom Celer Require Import C15.Canonical.\n"
+             "Import ListNotations.\nOpen Scope Z_scope.\n")
+
+
+def gen_canonical_words(r):
+    """a 64-bit total aimed at rnd53's case splits: below 2^53 (exact), ties / just below / just above half an
+    ulp in every binade, odd and even significands, the top of the range (rounds up to 2^64 -> clamp)"""
+    kind = r.choice(["full", "full", "small", "tie", "tie", "tie", "top", "zero"])
+    if kind == "full":
+        return r.getrandbits(64)
+    if kind == "small":
+        return r.getrandbits(r.randint(1, 53))
+    if kind == "zero":
+        return r.choice([0, 1, 2 ** 32 - 1, 2 ** 32, 2 ** 53 - 1, 2 ** 53, 2 ** 53 + 1])
+    if kind == "top":
+        return 2 ** 64 - r.choice([1, 2, 1023, 1024, 1025, 2047, 2048, 2049, 3072, 3071, 3073, 4096])
+    L = r.randint(54, 64)
+    e = L - 53
+    q = (1 << 52) | r.getrandbits(52)
+    half = 1 << (e - 1)
+    rem = r.choice([0, half - 1, half, half + 1, (1 << e) - 1, r.getrandbits(e)]) % (1 << e)
+    if rem < 0:
+        rem = 0
+    return (q << e) | rem
+
+
+def run_canonical(ctx):
+    """generic GenerateCanonical path (std::generate_canonical<double, 53> on 32-/64-bit engines) against the
+    exact integer model coq/C15/Canonical.v; support oracle [0, 1) on the implementation"""
+    from fractions import Fraction
+    ok, log = ctx.coq_build(["C15/Canonical.vo"])
+    if not ok:
+        ctx.violation("model-broken", "coq/C15/Canonical.v no longer compiles", {"log": log[-2000:]}, no_input=True)
+        return 0
+    exe = ctx.compile_harness([os.path.join(HERE, "harness", "canonical.cc")], "canonical")
+    r = ctx.rng
+    n = 240 if ctx.tier == "quick" else 6000
+    cases = [(64, [2 ** 64 - 1]), (32, [2 ** 32 - 1, 2 ** 32 - 1]), (64, [0]), (32, [0, 0]), (32, [7]), (64, []),
+             (64, [2 ** 64 - 1024]), (64, [2 ** 64 - 1025]), (32, [2 ** 32 - 1024, 2 ** 32 - 1])]
+    for _ in range(n):
+        tot = gen_canonical_words(r)
+        extra = [r.getrandbits(32) for _ in range(r.randint(0, 2))]
+        if r.random() < 0.5:
+            cases.append((64, [tot] + extra))
+        else:
+            cases.append((32, [tot & 0xffffffff, tot >> 32] + extra))
+    inp = "".join("%d %d %s\n" % (w, len(xs), " ".join(str(x) for x in xs)) for w, xs in cases)
+    rc, out = ctx.run_harness(exe, input=inp)
+    lines = out.strip().splitlines()
+    if rc != 0 or len(lines) != len(cases):
+        raise vlib.BuildError("canonical harness failed rc=%d" % rc, out[-2000:])
+    exprs = ["run_canonical %d [%s]" % (w, "; ".join(str(x) for x in xs)) for w, xs in cases]
+    mvals = ctx.coq_eval("canon", PRE_CANON, exprs, chunk=max(50, len(exprs) // 4 + 1))
+    ndis = 0
+    for (w, xs), line, mv in zip(cases, lines, mvals):
+        tok = line.split()
+        ctx.count("kind:canonical%d" % w)
+        ctx.case(("canonical", w, tuple(xs[:2])), nontrivial=tok[0] == "ok")
+        if tok[0] == "exhausted":
+            impl = None
+        elif tok[0] != "ok":
+            ctx.violation("correspondence", "generate_canonical entry points disagree with each other (%s)" % tok[0],
+                          {"engine_bits": w, "words": xs}, no_input=True)
+            continue
+        else:
+            impl = (int(tok[1]), float.fromhex(tok[2]), float.fromhex(tok[3]))
+        if impl is not None:
+            for v in impl[1:]:
+                if not (0.0 <= v < 1.0):
+                    ctx.violation("support", "generic generate_canonical returned %r outside [0, 1)" % v,
+                                  {"engine_bits": w, "words": xs[:impl[0]], "impl_value": v.hex()})
+                    break
+            else:
+                cnt = "canonical%d:%s" % (w, "clamped" if impl[1] == 1.0 - 2.0 ** -53 else
+                                          ("exact" if sum(x << (w * i) for i, x in enumerate(xs[:impl[0]])) < 2 ** 53 else "rounded"))
+                ctx.count(cnt)
+        if impl is None and mv is None:
+            continue
+        agree = (impl is not None and mv is not None and impl[0] == mv[2]
+                 and Fraction(impl[1]) == Fraction(mv[0], 2 ** mv[1]) and impl[1] == impl[2])
+        if not agree:
+            ndis += 1
+            ctx.violation("correspondence", "model and implementation differ for the generic GenerateCanonical path",
+                          {"engine_bits": w, "words": xs, "impl": impl and [impl[0], impl[1].hex(), impl[2].hex()],
+                           "model_N_K_consumed": mv}, no_input=True)
+            if ndis > 3:
+                break
+    return len(cases)
+
+
 def run(ctx):
     n = 400 if ctx.tier == "quick" else 12000
     ctx.trusted += [
@@ -828,6 +961,14 @@ def run(ctx):
                           {"sampler": k, "params": p, "stream": u[:impl[1]], "impl_values": impl[0], "model_values": model and model[0]},
                           signature=sig)
             continue
+        sq = squeeze_oracle(k, p, u, impl)
+        if k == "gamma":
+            ctx.count("gamma-first-iteration:" + ("accepted" if impl and impl[1] == (3 if p[0] >= 1 else 4) else "rejected"))
+        if sq:
+            ctx.violation("squeeze-unsound", "GammaDistribution accepted a point that the exact Marsaglia-Tsang test rejects "
+                          "(alpha=%r z=%.6g u=%.9g: ln u = %.9g > %.9g)" % (sq["alpha"], sq["z"], sq["u"], sq["ln_u"], sq["exact_bound"]),
+                          dict({"sampler": k, "params": p, "stream": u[:3], "impl_values": impl[0]}, **sq))
+            continue
         agree = (impl is not None and model is not None and impl[1] == model[1]
                  and close(impl[0], model[0], rtol=1e-9, atol=1e-300))
         if not agree and impl and model and impl[1] == model[1] and k in ("poisson", "selector", "bernoulli", "bernoulli2", "rejection", "gamma", "tsaiurban"):
@@ -853,6 +994,7 @@ def run(ctx):
             if ndis > 5:
                 break
     n_eloss, exe_e = run_eloss(ctx, proofs_ok)
+    n_canon = run_canonical(ctx)
     boundary_law_oracle(ctx, exe, exe_e)
     urban_sampling_mean_oracle(ctx, exe_e)
     if ctx.tier == "thorough":
@@ -863,7 +1005,7 @@ def run(ctx):
         ctx.violation("proof-broken", "Properties_C15.v no longer checks", ctx.broken_proof, no_input=True)
     ctx.coverage["rule"] = ("cases = (sampler kind, parameters, uniform stream) drawn from one PRNG seeded by VERIF_SEED; "
                             "non-trivial = the implementation returned a sample (stream not exhausted); distinct by (kind, params, stream head)")
-    ctx.coverage["traces_validated_against_impl"] = len(cases) + n_eloss
+    ctx.coverage["traces_validated_against_impl"] = len(cases) + n_eloss + n_canon
 
 
 def knife_edge(k, p, u, impl, model):
